@@ -92,6 +92,9 @@ func (cfg Config) Froze() API {
 	if cfg.CaseSensitive {
 		api.decoderOpts |= decoder.OptionCaseSensitive
 	}
+	if cfg.UseUnicodeErrors {
+		api.decoderOpts |= decoder.OptionUseUnicodeErrors
+	}
 	return api
 }
 
